@@ -534,4 +534,151 @@ def run(ck):
             c["origin"] = f"random graph {k} of seed {ck.seed}"
             cases.append(c)
     judge(ck, cases, "generated", res, malformed_ok=True)
+    run_slices(ck, res)
     return res
+
+
+# ------------------------------------------------------------------------------------------------
+# slice reads moved onto consumers: remove_SplitSliceRead / move_splitsliceread_to_consumer against Model/SliceRead.lean
+
+
+def _s4(v):
+    return "x".join(str(int(x)) for x in v)
+
+
+def gen_slice_case(rng):
+    """a SplitSliceRead operator (real classes) with 1-3 consumers of its output"""
+    from ethosu.vela.data_type import DataType
+    from ethosu.vela.operation import Op, Operation
+    from ethosu.vela.shape4d import Shape4D
+    from ethosu.vela.tensor import Tensor, TensorPurpose
+
+    def fm(shape, name):
+        t = Tensor(list(shape), DataType.int8, name)
+        t.purpose = TensorPurpose.FeatureMap
+        return t
+
+    full = [1, rng.randint(4, 8), rng.randint(4, 8), rng.choice([4, 8])]
+    off = [0, rng.randint(0, 2), rng.randint(0, 2), rng.choice([0, 0, full[3] // 2])]
+    shp = [1, rng.randint(1, full[1] - off[1]), rng.randint(1, full[2] - off[2]), full[3] - off[3]]
+    x = fm(full, "x")
+    producer = Operation(Op.MaxPool, "producer")
+    producer.outputs.append(x)
+    x.ops.append(producer)
+    s_t = fm(shp, "slice")
+    op = Operation(Op.SplitSliceRead, "slice_read")
+    op.add_input_tensor(x)
+    op.outputs.append(s_t)
+    s_t.ops.append(op)
+    op.read_offsets[0] = Shape4D(off)
+    op.read_shapes[0] = Shape4D(shp)
+    op.ifm_shapes = [Shape4D(full)]
+    # the slice's own shape, or (rarely) an operator shape that differs from the tensor's (bypassed reshape)
+    ofs = list(shp) if rng.random() < 0.92 else [1, shp[2], shp[1], shp[3]]
+    op.ofm_shapes = [Shape4D(ofs)]
+    cons, desc = [], []
+    for k in range(rng.choice([1, 1, 2, 3])):
+        kind = rng.choice(["Relu", "Conv2DBias", "MaxPool", "Add", "Add2", "Mul", "Reshape", "Memcpy", "cpu", "transpose", "AvgPool", "slice2",
+                           "Relu", "MaxPool", "Add"])
+        view = list(shp) if rng.random() < 0.85 else [1, shp[1], max(1, shp[2] // 2), shp[3] * 2]
+        o_t = fm(view, f"o{k}")
+        if kind in ("Add", "Add2", "Mul"):
+            c = Operation(Op.Mul if kind == "Mul" else Op.Add, f"c{k}")
+            other_shape = list(shp) if rng.random() < 0.7 else [1, 1, 1, shp[3]]
+            other = fm(other_shape, f"other{k}")
+            ins = [other, s_t] if kind == "Add2" else [s_t, other]
+            for t in ins:
+                c.add_input_tensor(t)
+            c.ifm_shapes = [Shape4D(list(t.shape) if t is not s_t else view) for t in ins]
+            bshape = list(shp) if rng.random() < 0.8 else [1, shp[1] + 1, shp[2], shp[3]]
+            c.ofm_shapes = [Shape4D(bshape)]
+        else:
+            ty = {"Relu": Op.Relu, "Conv2DBias": Op.Conv2DBias, "MaxPool": Op.MaxPool, "Reshape": Op.Reshape, "Memcpy": Op.Memcpy,
+                  "cpu": Op.MaxPool, "transpose": Op.AvgPool, "AvgPool": Op.AvgPool, "slice2": Op.MaxPool}[kind]
+            c = Operation(ty, f"c{k}")
+            c.add_input_tensor(s_t)
+            if rng.random() > 0.03:
+                c.ifm_shapes = [Shape4D(view)]
+            c.ofm_shapes = [Shape4D(view)]
+            if kind == "cpu":
+                c.run_on_npu = False
+            if kind == "transpose":
+                c._original_type = Op.Transpose
+            if kind == "slice2":
+                # the consumer is itself the result of an earlier slice fold: it reads a part of the slice
+                o2 = [0, rng.randint(0, max(0, shp[1] - 1)), rng.randint(0, max(0, shp[2] - 1)), 0]
+                c.read_offsets[0] = Shape4D(o2)
+                c.read_shapes[0] = Shape4D([1, shp[1] - o2[1], shp[2] - o2[2], shp[3]])
+        c.outputs.append(o_t)
+        o_t.ops.append(c)
+        cons.append(c)
+        desc.append(kind)
+    if rng.random() < 0.08:
+        s_t.consumer_list.append(None)
+        desc.append("graph-output")
+    return op, x, s_t, cons, desc
+
+
+def slice_request(op, s_t):
+    def cstr(c):
+        if c is None:
+            return "1,1,0,0,0,0,0,0,0,,,n,n,n,n"
+        from ethosu.vela import pass_packing as pp
+        from ethosu.vela.operation import Op
+
+        o = lambda v: "n" if v is None else _s4(v.as_list())  # noqa: E731
+        return ",".join(["0", "1" if c.run_on_npu else "0", "1" if c.type in pp.memory_only_ops else "0", "1" if c.type == Op.Mul else "0",
+                         "1" if c.type == Op.Memcpy else "0", "1" if c.original_type == Op.Transpose else "0",
+                         "1" if c.type.is_binary_elementwise_op() else "0", "1" if c.ifm is s_t else "0",
+                         "1" if c.ifm2 is s_t else "0", "/".join(_s4(s.as_list()) for s in c.ifm_shapes),
+                         "/".join(_s4(s.as_list()) for s in c.ofm_shapes), o(c.read_offsets[0]), o(c.read_offsets[1]),
+                         o(c.read_shapes[0]), o(c.read_shapes[1])])
+
+    from ethosu.vela.shape4d import Shape4D
+
+    s = ",".join([_s4(op.ifm_shapes[0].as_list()), _s4(op.ofm_shapes[0].as_list()), _s4(Shape4D.from_list(s_t.shape).as_list()),
+                  _s4(op.read_offsets[0].as_list()), _s4(op.read_shapes[0].as_list())])
+    return f"slicefold s={s} cons={';'.join(cstr(c) for c in s_t.consumer_list)}"
+
+
+def run_slices(ck, res):
+    """the REAL remove_SplitSliceRead on generated operators against the model; the semantic part (offsets of a slice of a slice
+    add up) is Props/C01Slice.slice_of_slice_read"""
+    import random
+
+    from ethosu.vela import tflite_graph_optimiser as tgo
+
+    rng = random.Random(ck.seed * 31337 + 3)
+    reqs, reals, descs = [], [], []
+    for k in range(6000 if ck.thorough else 1500):
+        op, x, s_t, cons, desc = gen_slice_case(rng)
+        reqs.append(slice_request(op, s_t))
+        o = lambda v: "n" if v is None else _s4(v.as_list())  # noqa: E731
+        try:
+            tgo.remove_SplitSliceRead(op, None)
+        except IndexError:
+            reals.append("err:index")
+            descs.append(desc)
+            continue
+        if s_t.ops == []:
+            # moved onto the consumers: every one of them now reads x
+            ok_inputs = all((c.ifm is x) or (c.ifm2 is x) for c in cons)
+            reals.append("fold=1 " + ";".join(",".join([o(c.read_offsets[0]), o(c.read_offsets[1]), o(c.read_shapes[0]), o(c.read_shapes[1]),
+                                                         "/".join(_s4(s.as_list()) for s in c.ifm_shapes)]) for c in cons) +
+                         ("" if ok_inputs else " inputs-not-rewired"))
+        else:
+            pool = s_t.ops[0]
+            same = (pool.read_offsets[0] == op.read_offsets[0] and pool.read_shapes[0] == op.read_shapes[0] and pool.ifm is x)
+            reals.append("fold=0" + ("" if same else " pool-reads-something-else"))
+        descs.append(desc)
+    answers = ck.model(reqs)
+    for rq, real, ans, desc in zip(reqs, reals, answers, descs):
+        res.evaluations += 1
+        ck.count("slice_read_cases")
+        ck.count("slice_read_" + real.split(" ")[0])
+        if "slice2" in desc and real.startswith("fold=1"):
+            ck.count("slice_read_slice_of_slice_folded")
+        res.nontrivial.add(hash(rq))
+        if ans != real:
+            ck.violation(f"remove_SplitSliceRead: model {ans[:200]} real {real[:200]} (consumers {desc})",
+                         {"stream": "slice reads", "request": rq, "real": real, "model": ans, "consumers": desc}, found_input=False)
